@@ -307,6 +307,8 @@ struct ImageResult {
     first: Result<u128, String>,
     /// observation after one more commit + reopen
     second: Option<Result<u128, String>>,
+    /// hash of the raw bytes of the two root slots of the image (what `Writer::open` decides on)
+    slots: u128,
 }
 
 fn extra_action() -> Action {
@@ -323,6 +325,7 @@ fn evaluate(dir: &Path, gid: GraphId, log: &[Rec], recipe: &Recipe) -> ImageResu
         if let Err(e) = materialise(&file, log, recipe) {
             mcx::machinery_error(&e);
         }
+        let slots = slot_bytes_hash(&file);
         interpose::set_cheap_falloc(true);
         let first = (|| -> Result<u128, String> {
             let mut client = open_client(dir)?;
@@ -348,12 +351,98 @@ fn evaluate(dir: &Path, gid: GraphId, log: &[Rec], recipe: &Recipe) -> ImageResu
             None
         };
         interpose::set_cheap_falloc(false);
-        ImageResult { first, second }
+        ImageResult { first, second, slots }
     });
     let _ = std::fs::remove_file(&file);
     match r {
         Ok(r) => r,
-        Err(p) => ImageResult { first: Err(format!("panic: {p} at {}", mcx::last_panic_location())), second: None },
+        Err(p) => ImageResult { first: Err(format!("panic: {p} at {}", mcx::last_panic_location())), second: None, slots: 0 },
+    }
+}
+
+/// Raw bytes of the two root slots (4-byte length prefix + record; 96 bytes cover both).
+fn slot_bytes_hash(file: &Path) -> u128 {
+    let mut buf = [0u8; 192];
+    if let Ok(f) = std::fs::File::open(file) {
+        let _ = f.read_at(&mut buf[..96], 4096);
+        let _ = f.read_at(&mut buf[96..], 8192);
+    }
+    hash128(&mcx::hex(&buf))
+}
+
+fn apply_recipe(f: &std::fs::File, log: &[Rec], recipe: &Recipe) -> Result<(), String> {
+    for &(i, len) in recipe {
+        match &log[i as usize] {
+            Rec::Write { off, data } => f.write_all_at(&data[..len as usize], *off).map_err(|e| format!("image write: {e}"))?,
+            Rec::Falloc { end } => {
+                if f.metadata().map_err(|e| format!("{e}"))?.len() < *end {
+                    f.set_len(*end).map_err(|e| format!("image set_len: {e}"))?;
+                }
+            }
+            _ => return Err("recipe refers to a non-write record".into()),
+        }
+    }
+    Ok(())
+}
+
+/// Class key: see the description of the violation.
+pub const STALE_ROOT_BODY_KEY: &str = "second crash: crash 1 persists the body of a root record but not the 4-byte length prefix written just before it (slot invalid, recovery correct); in the recovered session the next root write to that slot persists only its length prefix, which revives the stale body as a valid newer root whose data has meanwhile been overwritten -> reopen fails; minimal: crash after 22 logged operations with kept mask 0b10 of the 2 root writes of commit 1, then crash after 10 operations of the recovered session with the root length prefix kept";
+
+fn second_action() -> Action {
+    Action { tag: 0x7E, seq: 100, cmds: vec![vec![ins("n0", k(&["y"]), "v0")]] }
+}
+
+/// Second crash generation for one class of recovered generation-1 images: the recorded
+/// continuation (two further commits in the recovered session) and its own crash images.
+struct Gen2 {
+    /// generation-1 recipe the continuation was recorded on
+    base: usize,
+    /// observation hashes: recovered state, after continuation commit 1, after commit 2
+    states: [u128; 3],
+    log: Vec<Rec>,
+    en: Enumerated,
+}
+
+fn record_gen2(dir: &Path, gid: GraphId, log1: &[Rec], recipe1: &Recipe, base: usize) -> Result<Gen2, String> {
+    let _ = std::fs::remove_dir_all(dir);
+    std::fs::create_dir_all(dir).map_err(|e| format!("scratch: {e}"))?;
+    materialise(&dir.join(gid.to_string()), log1, recipe1)?;
+    let mut bufs: Box<Bufs> = Box::new(RuntimeBuffers::new());
+    let mut sink = VecSink::default();
+    interpose::start(dir);
+    let res = (|| -> Result<[u128; 3], String> {
+        let mut client = open_client(dir)?;
+        let s0 = hash128(&observe(client.provider(), gid)?);
+        client.action(gid, &mut sink, &extra_action(), &mut bufs, MemSpill::new).map_err(|e| format!("continuation commit 1: {e:?}"))?;
+        interpose::marker(0);
+        let s1 = hash128(&observe(client.provider(), gid)?);
+        client.action(gid, &mut sink, &second_action(), &mut bufs, MemSpill::new).map_err(|e| format!("continuation commit 2: {e:?}"))?;
+        interpose::marker(1);
+        let s2 = hash128(&observe(client.provider(), gid)?);
+        Ok([s0, s1, s2])
+    })();
+    let log = interpose::stop();
+    let states = res?;
+    let en = enumerate(&log);
+    Ok(Gen2 { base, states, log, en })
+}
+
+fn evaluate_gen2(dir: &Path, gid: GraphId, log1: &[Rec], recipe1: &Recipe, g: &Gen2, recipe2: &Recipe) -> Result<u128, String> {
+    let file = dir.join(gid.to_string());
+    let r = mcx::catch(|| -> Result<u128, String> {
+        materialise(&file, log1, recipe1).unwrap_or_else(|e| mcx::machinery_error(&e));
+        {
+            let f = std::fs::OpenOptions::new().read(true).write(true).open(&file).map_err(|e| format!("image open: {e}"))?;
+            apply_recipe(&f, &g.log, recipe2).unwrap_or_else(|e| mcx::machinery_error(&e));
+        }
+        let mut client = open_client(dir)?;
+        let o = observe(client.provider(), gid)?;
+        Ok(hash128(&o))
+    });
+    let _ = std::fs::remove_file(&file);
+    match r {
+        Ok(r) => r,
+        Err(p) => Err(format!("panic: {p} at {}", mcx::last_panic_location())),
     }
 }
 
@@ -642,6 +731,120 @@ pub fn run(args: &Args) {
             rep.sample(json!({"crash_after_ops": c.prefix, "commits_returned": k, "pattern": c.desc, "recovered_commit": recovered}));
         }
     }
+    // ---- second crash generation --------------------------------------------------------------
+    // Generation-1 images that reopen to a state and belong to at least one crash case with a
+    // returned commit are grouped by (raw bytes of both root slots, recovered observation).
+    // Members of a group agree on everything `Writer::open` reads and on every byte reachable
+    // from the recovered root; they differ only in unreachable bytes past the recovered write
+    // frontier, which the continuation overwrites or never reads — so their futures agree and
+    // one representative carries the group.
+    let mut kmax: HashMap<usize, usize> = HashMap::new();
+    for c in &en.contexts {
+        let e = kmax.entry(c.recipe_id).or_insert(0);
+        *e = (*e).max(c.commits_returned);
+    }
+    let mut groups: std::collections::BTreeMap<(u128, u128), usize> = std::collections::BTreeMap::new();
+    let mut gen1_recovering = 0u64;
+    for (id, res) in results.iter().enumerate() {
+        if let Some(ImageResult { first: Ok(h), slots, .. }) = res {
+            if kmax.get(&id).copied().unwrap_or(0) >= 1 {
+                gen1_recovering += 1;
+                groups.entry((*slots, *h)).or_insert(id);
+            }
+        }
+    }
+    let mut gen2s: Vec<Gen2> = Vec::new();
+    let g2dir = scratch.path().join("gen2rec");
+    for (_, &id) in groups.iter() {
+        match record_gen2(&g2dir, gid, log, &en.recipes[id], id) {
+            Ok(g) => gen2s.push(g),
+            Err(e) => {
+                *outcomes.entry("violation").or_default() += 1;
+                rep.violation(format!("generation 2: continuation on the image recovered from: {}", en.contexts.iter().find(|c| c.recipe_id == id).map(|c| c.desc.clone()).unwrap_or_default()), e, json!({"gen1_recipe": en.recipes[id]}));
+            }
+        }
+    }
+    let g2cases: Vec<(usize, usize)> = gen2s.iter().enumerate().flat_map(|(gi, g)| (0..g.en.recipes.len()).map(move |ri| (gi, ri))).collect();
+    let g2outs: Vec<Result<u128, String>> = g2cases
+        .par_iter()
+        .map(|&(gi, ri)| {
+            let dir = root.join(format!("t{}", mcx::rayon::current_thread_index().map(|i| i as i64).unwrap_or(-1)));
+            let _ = std::fs::create_dir_all(&dir);
+            let g = &gen2s[gi];
+            evaluate_gen2(&dir, gid, log, &en.recipes[g.base], g, &g.en.recipes[ri])
+        })
+        .collect();
+    let mut g2res: HashMap<(usize, usize), &Result<u128, String>> = HashMap::new();
+    for (c, o) in g2cases.iter().zip(g2outs.iter()) {
+        g2res.insert(*c, o);
+    }
+    let (mut g2_judged, mut g2_prev, mut g2_new, mut g2_nontrivial) = (0u64, 0u64, 0u64, BTreeSet::new());
+    let mut g2_stale = 0u64;
+    // crash 1 kept the body of a root record but lost the 4-byte length prefix written just before it
+    let stale_body = |recipe_id: usize| -> bool {
+        let r = &en.recipes[recipe_id];
+        r.iter().any(|&(i, len)| {
+            let i = i as usize;
+            matches!(&rec.log[i], Rec::Write { off, data } if (*off == 4100 || *off == 8196) && data.len() == len as usize) && i > 0 && matches!(&rec.log[i - 1], Rec::Write { off, .. } if *off == 4096 || *off == 8192) && !r.iter().any(|&(j, _)| j as usize == i - 1)
+        })
+    };
+    for (gi, g) in gen2s.iter().enumerate() {
+        let base_ctx = en.contexts.iter().find(|c| c.recipe_id == g.base && c.commits_returned >= 1);
+        let base_desc = base_ctx.map(|c| format!("crash after {} of {} logged operations, {}", c.prefix, rec.log.len(), c.desc)).unwrap_or_default();
+        for c2 in &g.en.contexts {
+            let Some(res) = g2res.get(&(gi, c2.recipe_id)) else { continue };
+            g2_judged += 1;
+            if c2.nontrivial {
+                g2_nontrivial.insert((gi, c2.recipe_id));
+            }
+            let k2 = c2.commits_returned;
+            let allowed: &[u128] = match k2 {
+                0 => &g.states[0..2],
+                1 => &g.states[1..3],
+                _ => &g.states[2..3],
+            };
+            let key2 = || format!("second crash: [{base_desc}] recovered; then crash after {} of {} operations of the recovered session ({k2} further commits returned): {}", c2.prefix, g.log.len(), c2.desc);
+            let replay2 = || json!({"gen1_recipe": en.recipes[g.base], "gen2_prefix": c2.prefix, "gen2_recipe": g.en.recipes[c2.recipe_id], "tier": args.tier.as_str()});
+            match res {
+                Err(e) if stale_body(g.base) => {
+                    // one recognisable class, reported under a single key
+                    *outcomes.entry("violation").or_default() += 1;
+                    g2_stale += 1;
+                    rep.violation(STALE_ROOT_BODY_KEY, format!("first of this class: {}\nreopen after the second crash fails although commits had returned: {e}", key2()), replay2());
+                }
+                Err(e) => {
+                    *outcomes.entry("violation").or_default() += 1;
+                    rep.violation(key2(), format!("reopen after the second crash fails although commits had returned: {e}"), replay2());
+                }
+                Ok(h) if allowed.contains(h) => {
+                    if *h == allowed[0] && allowed.len() > 1 {
+                        g2_prev += 1;
+                    } else {
+                        g2_new += 1;
+                    }
+                }
+                Ok(_) => {
+                    *outcomes.entry("violation").or_default() += 1;
+                    rep.violation(key2(), "reopen after the second crash yields neither the last returned commit nor the commit in progress".to_string(), replay2());
+                }
+            }
+        }
+    }
+    rep.count("gen2_generation1_images_recovering_after_a_returned_commit", gen1_recovering);
+    rep.count("gen2_classes_of_recovered_images", gen2s.len() as u64);
+    rep.count("gen2_crash_cases_judged", g2_judged);
+    rep.count("gen2_images_reopened", g2cases.len() as u64);
+    rep.count("gen2_recovered_previous_state", g2_prev);
+    rep.count("gen2_stale_root_body_resurrected", g2_stale);
+    rep.count("gen2_recovered_commit_in_progress_or_last", g2_new);
+    if rep.violations().is_empty() {
+        for c in ["gen2_classes_of_recovered_images", "gen2_crash_cases_judged", "gen2_recovered_previous_state", "gen2_recovered_commit_in_progress_or_last"] {
+            rep.require_nonzero(c);
+        }
+    }
+    let gen2_images = g2cases.len() as u64;
+    let gen2_nontrivial = g2_nontrivial.len() as u64;
+
     // error-return family (no crash): one intercepted call fails per run.  Only what C15 states is
     // judged here (reopen after the failure / final reopen); the same-handle clauses are C07/C08.
     let efam = errfam::run_family(&mut rep, errfam::Mode::C15, scratch.path(), args.tier);
@@ -651,11 +854,11 @@ pub fn run(args: &Args) {
         rep.outcome(k2, *v);
     }
     rep.sample(json!({"workload": rec.steps, "log_length": rec.log.len(), "log_head": rec.log.iter().take(14).map(|r| match r { Rec::Write { off, data } => format!("pwrite({off},{}B)", data.len()), Rec::Falloc { end } => format!("fallocate(..{end})"), Rec::Sync => "sync".into(), Rec::Marker(k) => format!("CommitReturned({k})") }).collect::<Vec<_>>()}));
-    rep.set("evaluations", evaluated.load(Relaxed) + efam.runs);
+    rep.set("evaluations", evaluated.load(Relaxed) + efam.runs + gen2_images);
     rep.set("crash_cases_judged", judged);
     rep.set("crash_cases_enumerated", en.contexts.len() as u64);
     rep.set("distinct_images", en.recipes.len() as u64);
-    rep.set("distinct_nontrivial", nontrivial.len() as u64);
+    rep.set("distinct_nontrivial", nontrivial.len() as u64 + gen2_nontrivial);
     rep.set("rule", "crash case = (prefix of the recorded op log, persistence pattern of the writes since the last completed sync: kept/lost subsets — all 2^|W| for |W|<=12, else within 3 deviations of all-kept/all-lost — and single torn writes at 512-byte boundaries and, for sub-sector writes, after byte 1, len/2, len-1, with the other unsynced writes all kept / all lost / kept-before / kept-after); cases giving the same file content are reopened once (evaluations = distinct images reopened); non-trivial = distinct images in which the unsynced writes are neither all kept nor all lost (a proper non-empty subset or a torn write)");
     rep.set("exhaustive", !cap);
     if cap {
